@@ -662,6 +662,22 @@ WholeOut(c, o) ==
                UNION { Chk(ObsGroup(o.out.groups[i]) = OUT!ExpectedGroup(S, order[i]) /\ BufferDefaultsOk(o.out.groups[i]),
                            "DRIFT bind group " \o ToJson(ObsGroup(o.out.groups[i])) \o " differs from Output.tla " \o ToJson(OUT!ExpectedGroup(S, order[i]))) : i \in DOMAIN order }
              ELSE {})
+       \cup (IF S.overrides # << >> THEN
+               Chk(Has(o.out, "overrides") /\ [ i \in DOMAIN o.out.overrides.fields |-> [ name |-> o.out.overrides.fields[i].name, ty |-> o.out.overrides.fields[i].ty ] ] = OUT!ExpectedOverrideFields(S), "DRIFT OverrideConstants fields")
+             ELSE Chk(~Has(o.out, "overrides"), "DRIFT OverrideConstants emitted without overrides"))
+       \cup Chk([ i \in DOMAIN o.out.entry_consts |-> [ const |-> o.out.entry_consts[i].const, value |-> o.out.entry_consts[i].value ] ] = OUT!ExpectedEntryConsts(S), "DRIFT entry constants " \o ToJson(o.out.entry_consts))
+       \cup Chk(Len(o.out.compute) = Len(OUT!ExpectedCompute(S)) /\ Len(o.out.wg_sizes) = Len(OUT!ExpectedCompute(S)), "DRIFT number of compute items")
+       \cup (IF Len(o.out.compute) = Len(OUT!ExpectedCompute(S)) /\ Len(o.out.wg_sizes) = Len(OUT!ExpectedCompute(S)) THEN
+               UNION { LET x == OUT!ExpectedCompute(S)[i]
+                           cc == o.out.compute[i] IN
+                       Chk(o.out.wg_sizes[i].const = x.wg_const /\ cc.fn = x.ctor /\ LabelOf(cc.desc.label) = x.label /\ LabelOf(cc.desc.entry_point) = x.entry,
+                           "DRIFT compute item " \o ToJson([ wg |-> o.out.wg_sizes[i].const, fn |-> cc.fn, label |-> LabelOf(cc.desc.label) ]) \o " expected " \o ToJson(x)) : i \in DOMAIN o.out.compute }
+             ELSE {})
+       \cup Chk({ [ name |-> v.name, count |-> v.count, attrs |-> [ j \in DOMAIN v.attrs |-> [ format |-> v.attrs[j].format, location |-> v.attrs[j].location, offset_struct |-> v.attrs[j].offset_struct, offset_field |-> v.attrs[j].offset_field ] ] ] : v \in Range(o.out.vertex_structs) }
+                 = { OUT!ExpectedVertexImpl(S, n) : n \in OUT!VertexInputStructs(S) } /\ Len(o.out.vertex_structs) = Cardinality(OUT!VertexInputStructs(S)),
+                 "DRIFT vertex impl blocks " \o ToJson(o.out.vertex_structs))
+       \cup Chk(Has(o.out, "pipeline_layout") /\ o.out.pipeline_layout.bgls = OUT!ExpectedPipelineBgls(S, order), "DRIFT pipeline layout group list")
+       \cup Chk(Has(o.out, "source") /\ o.out.source.kind = (IF Has(opts, "include") THEN "include_str" ELSE "embedded"), "DRIFT SOURCE kind")
        \cup UNION { LET e == EN!EntriesOf(S, "vertex")[i]
                         k == "fn " \o e.name \o "_entry"
                     IN IF ~Has(o.out.fns, k) THEN { "DRIFT vertex entry helper of " \o e.name \o " missing" }
